@@ -46,14 +46,14 @@ theorem shouldAcceptNomination_gen_eq_model (hasValue : Bool) (value : UInt32) (
   cases hasValue <;> cases hasLast <;> simp
   all_goals (by_cases hg : last.toNat < value.toNat <;> simp [hg])
 
-theorem shouldSwitchSelectedPair_gen_eq_model (hasSelected samePair hasValue needsPrio : Bool)
+theorem shouldSwitchSelectedPair_gen_eq_model (hasSelected samePair hasValue hasLast needsPrio : Bool)
     (selectedPrio pairPrio : UInt64) :
-    IceGen.controlledSelector_shouldSwitchSelectedPair hasSelected samePair hasValue needsPrio selectedPrio pairPrio
-      = shouldSwitch hasSelected samePair hasValue needsPrio selectedPrio.toNat pairPrio.toNat := by
+    IceGen.controlledSelector_shouldSwitchSelectedPair hasSelected samePair hasValue hasLast needsPrio selectedPrio pairPrio
+      = shouldSwitch hasSelected samePair hasValue hasLast needsPrio selectedPrio.toNat pairPrio.toNat := by
   unfold IceGen.controlledSelector_shouldSwitchSelectedPair shouldSwitch
   have h : decide (selectedPrio < pairPrio) = decide (selectedPrio.toNat < pairPrio.toNat) := by
     simp [UInt64.lt_iff_toNat_lt]
-  cases hasSelected <;> cases samePair <;> cases hasValue <;> cases needsPrio <;> simp [h]
+  cases hasSelected <;> cases samePair <;> cases hasValue <;> cases hasLast <;> cases needsPrio <;> simp [h]
 
 theorem needsPrioCheck_gen_eq_model (cfg : Config) :
     IceGen.agent_needsToCheckPriorityOnNominated cfg.lite cfg.useCandCheckPriority = needsPrioCheck cfg := rfl
